@@ -1066,6 +1066,55 @@ func genServe(emit func(string)) {
 			}
 		}
 	}
+	// foreign principals and home sets whose names are the user's plus or minus one
+	// character (any byte, slash lookalikes included), both slash spellings of the
+	// stored path and of the request: a name one character apart is another resource
+	near := func(n string) []string {
+		out := []string{n + "2", n + "x", n + " ", n + ".", n + "%2F", n + "\\", n + "\u2215", n + "\x01", n + n[len(n)-1:], "2" + n}
+		if len(n) > 1 {
+			out = append(out, n[:len(n)-1], n[1:])
+		}
+		return out
+	}
+	nearPfx := prefixes(1)
+	if thorough {
+		nearPfx = prefixes(2)
+	}
+	for _, ps := range nearPfx {
+		for _, pt := range []bool{false, true} {
+			hprefix := join(ps) + tslash(pt)
+			for li, nm := range layouts {
+				for _, srv := range []string{"cal", "card"} {
+					for sp := 0; sp < 4; sp++ {
+						w := mkWorld(ps, nm.u, nm.h, nm.cs, nm.os, sp%2 == 0, li+sp)
+						if sp&1 != 0 {
+							w.principal = strings.TrimSuffix(w.principal, "/")
+						}
+						if sp&2 != 0 {
+							w.home = strings.TrimSuffix(w.home, "/")
+						}
+						wsx := worldSx(w)
+						var rests [][]string
+						for _, u2 := range near(nm.u) {
+							rests = append(rests, []string{u2}, []string{u2, nm.h})
+						}
+						for _, h2 := range near(nm.h) {
+							rests = append(rests, []string{nm.u, h2})
+						}
+						rests = append(rests, []string{nm.u}, []string{nm.u, nm.h})
+						for _, rs := range rests {
+							for _, rt := range []bool{false, true} {
+								for _, k := range []reqKind{{"PROPFIND", "0", "good", ""}, {"PROPFIND", "1", "good", ""}, {"PROPFIND", "inf", "good", ""}, {"MKCOL", "0", "good", ""}, {"DELETE", "0", "good", ""}} {
+									q := request{method: k.method, path: reqPath(ps, rs, rt), depth: k.depth, variant: k.variant}
+									emit(hx.L("serve", srv, hx.S(hprefix), wsx, reqSx(q), layoutSx(ps, pt, rs, rt)))
+								}
+							}
+						}
+					}
+				}
+			}
+		}
+	}
 	// the /.well-known redirect, and paths outside the quantifier (model faithfulness only)
 	for _, srv := range []string{"cal", "card"} {
 		for _, ps := range [][]string{{}, {"dav"}, {"%41", "é"}, {"a b"}} {
@@ -1131,6 +1180,12 @@ func genServe(emit func(string)) {
 		}
 		u, h := randSeg(), randSeg()
 		w := mkWorld(ps, u, h, cs, os, rng.Bool(), rng.Intn(8))
+		if rng.Bool() {
+			w.principal = strings.TrimSuffix(w.principal, "/")
+		}
+		if rng.Bool() {
+			w.home = strings.TrimSuffix(w.home, "/")
+		}
 		var rs []string
 		own := []string{u, h}
 		if len(cs) > 0 {
@@ -1140,7 +1195,14 @@ func genServe(emit func(string)) {
 			}
 		}
 		for d, k := 0, rng.Intn(7); d < k; d++ {
-			if d < len(own) && !rng.Chance(1, 6) {
+			if d < len(own) && rng.Chance(1, 8) {
+				// one character more or less than the own name
+				if n := own[d]; rng.Bool() || len(n) < 2 {
+					rs = append(rs, n+rng.Pick(segPieces))
+				} else {
+					rs = append(rs, n[:len(n)-1])
+				}
+			} else if d < len(own) && !rng.Chance(1, 6) {
 				rs = append(rs, own[d])
 			} else {
 				rs = append(rs, randSeg())
